@@ -228,6 +228,24 @@ var headerMutations = []mutation{
 		b[1] = byte(rapid.SampledFrom([]int{0, 16, 17, 128, 255}).Draw(t, "stratum"))
 		return b
 	}, nil},
+	// several header fields at once (a check that is right for each field with the others at their usual
+	// values may couple them): each of leap, version, mode, stratum keeps an admissible value in 2 of 3 draws
+	{"header-fields-jointly", func(t *rapid.T, b []byte) []byte {
+		pick := func(label string, ok []int, n int) int {
+			if rapid.IntRange(0, 2).Draw(t, label+"-any") == 0 {
+				return rapid.IntRange(0, n-1).Draw(t, label)
+			}
+			return rapid.SampledFrom(ok).Draw(t, label)
+		}
+		li, vn, mode := pick("li", []int{0, 1, 2}, 4), pick("vn", []int{3, 4}, 8), pick("mode", []int{4}, 8)
+		b[0] = byte(li<<6 | vn<<3 | mode)
+		if rapid.IntRange(0, 2).Draw(t, "stratum-any") == 0 {
+			b[1] = byte(rapid.SampledFrom([]int{0, 16, 17, 31, 128, 255}).Draw(t, "stratum"))
+		} else {
+			b[1] = byte(rapid.IntRange(1, 15).Draw(t, "stratum"))
+		}
+		return b
+	}, nil},
 	{"stratum-ok", func(t *rapid.T, b []byte) []byte { b[1] = byte(rapid.IntRange(2, 15).Draw(t, "stratum")); return b }, nil},
 	{"tx-before-rx", func(t *rapid.T, b []byte) []byte {
 		// transmit = receive - delta
@@ -292,6 +310,62 @@ func acceptableHeader(d []byte, q *ntp.Packet) bool {
 	return true
 }
 
+var recHdr = ev.New("c05/header-fields", "exhaustive: every first header byte (leap x version x mode, 256) x every stratum byte (256) in an otherwise genuine 48-byte response, decoded with ntp.DecodePacket and judged by ntp.ValidateResponseMetadata (the function both clients call). Oracle: accepted <=> server mode, version 3 or 4, leap indicator known, stratum 1..15 (the statement's predicate, evaluated on the bytes). One evaluation = one (first byte, stratum) pair. Non-trivial: the pair differs from a genuine response's in >= 2 of the four fields")
+
+// TestExhaustiveHeaderFields: the four header fields of the statement's predicate in every combination.
+func TestExhaustiveHeaderFields(t *testing.T) {
+	if vt.Shard() != 0 {
+		return // the enumeration is complete in one process
+	}
+	recHdr.Exhaustive = true
+	recHdr.Sample(map[string]any{"first_byte": 0x1c, "stratum": 16, "accepted": false})
+	recHdr.Sample(map[string]any{"first_byte": 0x5c, "stratum": 15, "accepted": true})
+	var n, nt int64
+	for b0 := 0; b0 < 256; b0++ {
+		for st := 0; st < 256; st++ {
+			d := make([]byte, 48)
+			d[0], d[1] = byte(b0), byte(st)
+			binary.BigEndian.PutUint64(d[32:], 0xe0000000_00000000)
+			binary.BigEndian.PutUint64(d[40:], 0xe0000000_00000100)
+			var p ntp.Packet
+			if err := ntp.DecodePacket(&p, d); err != nil {
+				vt.Violation(t, map[string]any{"kind": "header-fields", "first_byte": b0, "stratum": st}, "48-byte datagram not decoded: %v", err)
+				return
+			}
+			li, vn, mode := b0>>6, b0>>3&7, b0&7
+			want := li != 3 && (vn == 3 || vn == 4) && mode == 4 && st >= 1 && st <= 15
+			got := ntp.ValidateResponseMetadata(&p) == nil
+			if got != want {
+				vt.Violation(t, map[string]any{"kind": "header-fields", "first_byte": b0, "stratum": st},
+					"response with leap %d, version %d, mode %d, stratum %d: accepted = %v, the statement says %v", li, vn, mode, st, got, want)
+				return
+			}
+			n++
+			dev := 0
+			for _, x := range []bool{li == 3, vn != 4, mode != 4, st != 1} {
+				if x {
+					dev++
+				}
+			}
+			if dev >= 2 {
+				nt++
+			}
+		}
+	}
+	recHdr.Count(n)
+	recHdr.AddDistinct(0, nt)
+}
+
+func init() {
+	// the joint draw stands for 4 fields: it is chosen four times as often as a single-field mutation
+	for _, m := range headerMutations {
+		if m.name == "header-fields-jointly" {
+			headerMutations = append(headerMutations, m, m, m)
+			break
+		}
+	}
+}
+
 type window struct{ a, b time.Time }
 
 // cases in which the client's request never reached the model within the scripted deadline, and cases judged
@@ -303,7 +377,7 @@ func checkStalls(t *testing.T) {
 	}
 }
 
-var rec = ev.New("c05/acceptance", "rapid: a real IPClient (plain or NTS after a real key exchange with the harness's TLS key-exchange server; interleaved mode on/off, 0..2 clean warm-up exchanges) sends its request to the harness's server model, which answers with a script of 1..3 datagrams, each built for its own server clock offset (>= 2 s apart) and mutated: genuine; arbitrary bytes; single-field mutations (origin bit / zero, mode, version, leap, stratum, transmit before receive, truncation, harmless fields); NTS: flipped bit anywhere in the extension fields, other request's identifier, an identifier that only starts with the request's or is a zero-padded prefix of it (correctly sealed), authenticator sealed under the C2S key or a random key, authenticator removed, keyless authenticator with a ciphertext shorter than the tag, extension-length edits; sent from the queried address, another address, or another port of the queried address. Oracle: success => the reported offset lies in the envelope computed from the timestamps carried by exactly one delivered datagram that is acceptable by the statement's predicate (evaluated independently, NTS with own walker + miscreant); no acceptable datagram delivered => error; a lone genuine reply => success. One evaluation = one scripted exchange. Non-trivial: >= 1 non-acceptable datagram was delivered; distinct by (mode, script description)")
+var rec = ev.New("c05/acceptance", "rapid: a real IPClient (plain or NTS after a real key exchange with the harness's TLS key-exchange server; interleaved mode on/off, 0..2 clean warm-up exchanges) sends its request to the harness's server model, which answers with a script of 1..3 datagrams, each built for its own server clock offset (>= 2 s apart) and mutated: genuine; arbitrary bytes; single-field mutations (origin bit / zero, mode, version, leap, stratum, transmit before receive, truncation, harmless fields) and leap, version, mode and stratum drawn jointly; NTS: flipped bit anywhere in the extension fields, other request's identifier, an identifier that only starts with the request's or is a zero-padded prefix of it (correctly sealed), authenticator sealed under the C2S key or a random key, authenticator removed, keyless authenticator with a ciphertext shorter than the tag, extension-length edits; sent from the queried address, another address, or another port of the queried address. Oracle: success => the reported offset lies in the envelope computed from the timestamps carried by exactly one delivered datagram that is acceptable by the statement's predicate (evaluated independently, NTS with own walker + miscreant); no acceptable datagram delivered => error; a lone genuine reply => success. One evaluation = one scripted exchange. Non-trivial: >= 1 non-acceptable datagram was delivered; distinct by (mode, script description)")
 
 func TestPropAcceptance(t *testing.T) {
 	noRequest, judged = 0, 0
